@@ -79,6 +79,9 @@ def run(ctx, rep):
             key = "%s:%s@%s" % (short, m, _nth(b, bb, m))
             if COUNTED.match(m):
                 ok, why = _count_used(b, t)
+                if ok is True and m.startswith("read"):
+                    ok2, why2 = _buffer_bounded_by_count(b, bb, t)
+                    rep.add("R1", "buffer-use-bounded-by-count:" + key, ok2, b.where(bb), why2)
                 if m == "read" and ok == "probe":
                     n_probe += 1
                     rep.add("R1", "eof-probe:" + key, True, b.where(bb), why)
@@ -204,3 +207,119 @@ def _roots_ty(b, op, out, seen):
             prog = True
     if not prog:
         out.add(b.local_ty(l))
+
+
+def _buffer_bounded_by_count(b, rbb, t):
+    """After `n = read(&mut B[..])`, every later slice of B handed on as data is bounded by n."""
+    ti = err.try_info(b, t["dest"]["l"])
+    if ti is None:
+        return False, "count not propagated"
+    payload = ti["payload"]
+    roots = set()
+    _roots_of(b, t["args"][1], roots, set())
+    if not roots:
+        return False, "cannot identify the buffer"
+    bad, n = [], 0
+    reach = b.reachable_from(rbb)
+    for bb2, t2 in b.calls():
+        if bb2 not in reach or bb2 == rbb:
+            continue
+        nm = strip_generics(callee_def(t2))
+        if not re.search(r"(Index::index|IndexMut::index_mut|index|index_mut)$", nm):
+            continue
+        r2 = set()
+        _roots_of(b, t2["args"][0], r2, set())
+        if not (r2 & roots):
+            continue
+        # is the slice consumed as data (passed to something other than another read into it)?
+        al, sk = flow.track(b, {t2["dest"]["l"]})
+        consumers = [strip_generics(callee_def(x[3])) for x in sk if x[0] == "call"]
+        if all(re.search(r"Read::read(_exact)?$", c) for c in consumers) and consumers:
+            continue
+        n += 1
+        # range end must derive from the count
+        o = flow.origin(b, t2["args"][1], through=("use",))
+        ends = []
+        for _, _, rv in o.exprs:
+            if rv["k"] == "agg" and rv.get("adt", "").startswith("std::ops::Range"):
+                ends.append(rv["ops"][-1])
+        ok = bool(ends)
+        for e in ends:
+            if not _le_count(b, e, payload, set()):
+                ok = False
+        if not ok:
+            bad.append("%s slices the buffer with an end that does not come from the returned count (%s)" % (b.where(bb2), [flow.describe(b, e, names=True) for e in ends]))
+    if bad:
+        return False, "; ".join(bad[:2])
+    return True, "%d later slice(s) of the buffer are bounded by the returned count" % n
+
+
+def _roots_of(b, op, out, seen):
+    p = op_place(op) if ("c" in op or "m" in op) else (op if "l" in op else None)
+    if p is None:
+        return
+    l = p["l"]
+    if l in seen:
+        return
+    seen.add(l)
+    prog = False
+    for bb, idx, kind, payload in b.defs(l):
+        if kind == "assign" and payload["k"] in ("use", "cast") and op_place(payload["op"]) is not None:
+            _roots_of(b, payload["op"], out, seen)
+            prog = True
+        elif kind == "assign" and payload["k"] in ("ref", "rawptr"):
+            _roots_of(b, payload["place"], out, seen)
+            prog = True
+        elif kind == "call" and re.search(r"(Index::index|IndexMut::index_mut|index|index_mut|deref|deref_mut)$", strip_generics(callee_def(payload))):
+            _roots_of(b, payload["args"][0], out, seen)
+            prog = True
+    if not prog:
+        out.add(l)
+
+
+def _deps(b, op, out, seen, depth=0):
+    """All locals an operand's value is computed from (through copies, casts, arithmetic, min/max)."""
+    p = op_place(op) if ("c" in op or "m" in op) else (op if isinstance(op, dict) and "l" in op else None)
+    if p is None or depth > 12:
+        return
+    l = p["l"]
+    if l in seen:
+        return
+    seen.add(l)
+    out.add(l)
+    for bb, idx, kind, payload in b.defs(l):
+        if kind == "assign":
+            for pl in flow.places_in(payload):
+                _deps(b, pl, out, seen, depth + 1)
+        elif kind == "call" and re.search(r"(cmp::min|Ord::min|From::from|Into::into)$", strip_generics(callee_def(payload))):
+            for a in payload["args"]:
+                _deps(b, a, out, seen, depth + 1)
+
+
+def _le_count(b, op, payload, seen, depth=0):
+    """The operand is the returned count, a copy/cast of it, or min(.., count)."""
+    p = op_place(op) if ("c" in op or "m" in op) else (op if isinstance(op, dict) and "l" in op else None)
+    if p is None or depth > 10 or p["p"] and not all(isinstance(e, dict) and e.get("f") == 0 for e in p["p"]):
+        return False
+    l = p["l"]
+    if l in payload:
+        return True
+    if l in seen:
+        return False
+    seen.add(l)
+    ds = b.defs(l)
+    if not ds:
+        return False
+    for bb, idx, kind, payload_ in ds:
+        if kind == "assign" and payload_["k"] in ("use", "cast"):
+            if not _le_count(b, payload_["op"], payload, seen, depth + 1):
+                return False
+        elif kind == "call" and re.search(r"(cmp::min|Ord::min)$", strip_generics(callee_def(payload_))):
+            if not any(_le_count(b, a, payload, set(seen), depth + 1) for a in payload_["args"]):
+                return False
+        elif kind == "call" and re.search(r"(From::from|Into::into)$", strip_generics(callee_def(payload_))):
+            if not _le_count(b, payload_["args"][0], payload, seen, depth + 1):
+                return False
+        else:
+            return False
+    return True
